@@ -7,7 +7,8 @@ operation whose key or value the model's value language cannot express is droppe
 hist["tie-x:dropped-op"]); the rest runs on a fresh real object and on the driver.  After every operation the items and
 the length are observed on both sides (for Easy views also the native tags), so the comparison is outcome by outcome:
 returned value / exception class / resulting keys and values.  The model's copies of tables of /repo (MP4Tags.__atoms,
-the Easy registries) are compared with the live objects first.
+the Easy registries) are compared with the live objects first.  File objects (FLAC / MP3 / APEv2File proxies, with tags and with
+tags None) are replayed against `fileStep` over the tag store's model (driver kinds filevc / fileid3 / fileape).
 """
 import os, sys, json
 from vcheck import parse_fields
@@ -186,6 +187,13 @@ class XKind(object):
     def tables(self, ctx):
         return []
 
+    # hooks (file kinds override them)
+    def modelled(self, op): return modelled(op)
+    def enc_op(self, op): return enc_op(op)
+    def outcome(self, kind, obj, op, env): return real_outcome(kind, obj, op, env)
+    def start(self, kind, obj, env): return ""        # extra request arguments describing the initial state
+    def note(self, ctx, kind, obj, op, outcome): pass
+
 
 class Mp4X(XKind):
     name = "mp4"; base_name = "MP4Tags"
@@ -321,8 +329,155 @@ class EasyId3X(XKind):
         return [("easyid3", ";".join(rows))]
 
 
+# ---- FileType proxies (lean/MutagenModel/Model/DictFile.lean: fileImpl / fileStep; theorem file_refines)
+
+def _old_outcome(kind, obj, op, env):
+    """outcome of `op` on the real object in the output alphabet of the driver command `dict` (props/c16.py)"""
+    base = _base()
+    n = op[0]
+    try:
+        raw = kind.do(obj, op, env)
+    except Exception as e:
+        return err_name(e)
+    try:
+        if n in ("set", "del", "clear", "upd"): return "N"
+        if n == "keys": return "K" + ";".join(sorted(base.enc_key(base.canon(k, env)) for k in raw))
+        if n == "items":
+            return "I" + ";".join("%s=%s" % it for it in sorted((base.enc_key(base.canon(k, env)), base.enc_val(base.canon(v, env))) for k, v in raw))
+        if n == "values":
+            its = sorted((base.enc_key(base.canon(k, env)), base.enc_val(base.canon(obj[k], env))) for k in obj.keys())
+            return "W" + ";".join(v for _, v in its)
+        if n == "popitem": return "P%s=%s" % (base.enc_key(base.canon(raw[0], env)), base.enc_val(base.canon(raw[1], env)))
+        if n == "in": return "B1" if raw else "B0"
+        if n == "len": return "L%d" % raw
+        return "V" + base.enc_val(base.canon(raw, env))
+    except Exception as u:
+        return "?unmodelled-result:%s" % type(u).__name__
+
+
+class FileX(XKind):
+    """a FileType over its tags: c16's proxy kinds (and an APEv2File one made here), with tags and with tags None; the initial
+    tags travel in the request (`tags=`, `init=`).  A tag-less file answers KeyError to every lookup, also for a key its tag
+    format calls invalid (ValueError for Vorbis comments): the model follows the code (file_vc_invalid_key_witness), the
+    occurrences are counted in hist["tie-x:<kind>:tagless-lookup-KeyError-for-invalid-key"]."""
+    observe = (["items"], ["len"])
+
+    def __init__(self, name, base_name, sample=None, loader=None, inner=None, policy=None):
+        self.name = name; self.base_name = base_name
+        self.sample = sample; self.loader = loader; self.inner = inner; self.policy = policy
+
+    def base(self):
+        base = _base()
+        if self.base_name in base.KIND_BY_NAME:
+            return base.KIND_BY_NAME[self.base_name]
+        xk = self
+
+        class ApeFileKind(base.ProxyFileKind):
+            name = xk.base_name; sample = xk.sample; loader = staticmethod(xk.loader)
+            inner = base.KIND_BY_NAME[xk.inner]; policy = base.KIND_BY_NAME[xk.inner].policy
+        return ApeFileKind()
+
+    def modelled(self, op):
+        if self.name == "fileid3": return modelled(op)
+        return _base().modelled_op(op)
+
+    def enc_op(self, op):
+        if self.name == "fileid3": return enc_op(op)
+        return _base().enc_op(op)
+
+    def outcome(self, kind, obj, op, env):
+        if self.name == "fileid3":
+            return real_outcome_env(kind, obj, op, env)
+        return _old_outcome(kind, obj, op, env)
+
+    def start(self, kind, obj, env):
+        base = _base()
+        if obj.tags is None: return " tags=0"
+        if self.name == "filevc":
+            init = ";".join("%s:%s" % (base.enc_key(base.S(k)), base.enc_atom(base.canon(v))) for k, v in list(obj.tags))
+        elif self.name == "fileape":
+            init = ";".join("%s:%s" % (base.enc_key(base.S(k)), base.enc_val(base.canon(obj.tags[k]))) for k in obj.tags.keys())
+        else:
+            parts = []
+            for k in obj.tags.keys():
+                env.frames[id(obj.tags[k])] = "loaded:" + k
+                parts.append("%s~%s" % (enc_key(["s", k]), frame_token("loaded:" + k)))
+            init = ";".join(parts)
+        return " tags=1 init=%s" % (init or "-")
+
+    def note(self, ctx, kind, obj, op, outcome):
+        if outcome == "Ekey" and obj.tags is None and op[0] in ("get", "del", "pop") and len(op) > 1 and op[1][0] == "s":
+            try:
+                self.base().inner.policy.norm(op[1], "get")
+            except Exception as e:
+                if "KeyError" not in getattr(e, "classes", {"KeyError"}):
+                    ctx.hist["tie-x:%s:tagless-lookup-KeyError-for-invalid-key" % self.name] += 1
+
+
+def frame_token(uid):
+    return "a255_s" + uid.encode("utf-8").hex()
+
+
+def xcanon_env(v, env):
+    from mutagen.id3 import Frame
+    if isinstance(v, Frame):
+        uid = env.frames.get(id(v))
+        if uid is None: raise Unmodelled("unknown frame")
+        return ["frametok", uid]
+    if isinstance(v, list): return ["l", [xcanon_env(x, env) for x in v]]
+    if isinstance(v, tuple): return ["t", [xcanon_env(x, env) for x in v]]
+    return xcanon(v)
+
+
+def enc_val_env(c):
+    if c[0] == "frametok": return frame_token(c[1])
+    if c[0] == "l": return ".".join(["l"] + [enc_val_env(x) if x[0] == "frametok" else enc_item(x) for x in c[1]])
+    return enc_val(c)
+
+
+def real_outcome_env(kind, obj, op, env):
+    """as real_outcome, for values that may be ID3 frames (opaque tokens named by the harness)"""
+    n = op[0]
+    try:
+        raw = kind.do(obj, op, env)
+    except Exception as e:
+        return err_name(e)
+    try:
+        ev = lambda v: enc_val_env(xcanon_env(v, env))
+        if n in ("set", "del", "clear", "upd"): return "N"
+        if n == "keys": return "K" + ";".join(sorted(enc_key(xcanon(k)) for k in raw))
+        if n == "items": return "I" + ";".join("%s~%s" % it for it in sorted((enc_key(xcanon(k)), ev(v)) for k, v in raw))
+        if n == "values": return "W" + ";".join(v for _, v in sorted((enc_key(xcanon(k)), ev(obj[k])) for k in obj.keys()))
+        if n == "popitem": return "P%s~%s" % (enc_key(xcanon(raw[0])), ev(raw[1]))
+        if n == "in": return "B1" if raw else "B0"
+        if n == "len": return "L%d" % raw
+        return "V" + ev(raw)
+    except Unmodelled as u:
+        return "?unmodelled-result:%s" % u
+
+
+def _apev2file():
+    from mutagen.apev2 import APEv2File
+    return APEv2File
+
+
+_spec_val_plain = spec_val
+
+
+def spec_val(v):
+    """value spec -> driver language; an ID3 frame spec (["frame", fid, kwargs, uid]) is the token of its uid"""
+    if v[0] == "frame": return frame_token(v[3])
+    if v[0] == "l" and any(x[0] == "frame" for x in v[1]):
+        return ".".join(["l"] + [frame_token(x[3]) if x[0] == "frame" else enc_item(x) for x in v[1]])
+    return _spec_val_plain(v)
+
+
 XKINDS = [Mp4X(), AsfX(), EasyMp4X(), EasyId3X("EasyID3"), EasyId3X("EasyID3:performer"), EasyId3X("EasyID3:replaygain"),
-          EasyId3X("EasyID3:glob-case"), EasyId3X("EasyID3:performer-roles")]
+          EasyId3X("EasyID3:glob-case"), EasyId3X("EasyID3:performer-roles"),
+          FileX("filevc", "FLAC-proxy"), FileX("filevc", "FLAC-proxy:no-tags"),
+          FileX("fileid3", "MP3-proxy"), FileX("fileid3", "MP3-proxy:no-tags"),
+          FileX("fileape", "APEv2File-proxy", sample="silence-44-s.wv", loader=_apev2file, inner="APEv2"),
+          FileX("fileape", "APEv2File-proxy:no-tags", sample="click.mpc", loader=_apev2file, inner="APEv2")]
 
 
 # ---------------------------------------------------------------------------------------
@@ -356,22 +511,24 @@ def run(ctx, only=None):
             wild = (si % 3 == 2)
             seqs.append(base.gen_ops(kind, rng, maxlen if si % 4 else min(maxlen, 12), wild))
         for si, ops0 in enumerate(seqs):
-            ops = [op for op in ops0 if modelled(op)]
+            ops = [op for op in ops0 if xk.modelled(op)]
             ctx.hist["tie-x:dropped-op"] += len(ops0) - len(ops)
             env = kind.new_env() if hasattr(kind, "new_env") else base.Env()
             obj = kind.make(env)
+            extra = xk.start(kind, obj, env)
             seq = []; exp = []
             changed = raised = 0
             for op in ops:
-                o = real_outcome(kind, obj, op, env)
-                seq.append(enc_op(op)); exp.append(o)
+                o = xk.outcome(kind, obj, op, env)
+                xk.note(ctx, kind, obj, op, o)
+                seq.append(xk.enc_op(op)); exp.append(o)
                 if o.startswith("E"): raised += 1
                 ctx.hist["tie-x:%s:%s" % (xk.name, o[:1] if not o.startswith("E") else o)] += 1
                 for obs in xk.observe:
-                    seq.append(enc_op(obs))
-                    exp.append(real_outcome(kind, obj, obs, env) if obs[0] != "native" else "X" + xk.native(obj))
+                    seq.append(xk.enc_op(obs))
+                    exp.append(xk.outcome(kind, obj, obs, env) if obs[0] != "native" else "X" + xk.native(obj))
                 if op[0] in ("set", "del", "upd", "setd", "pop", "popd", "popitem", "clear") and not o.startswith("E"): changed += 1
-            lines.append("dictx kind=%s ops=%s" % (xk.name, ",".join(seq) if seq else "-"))
+            lines.append("dictx kind=%s%s ops=%s" % (xk.name, extra, ",".join(seq) if seq else "-"))
             cases.append((ops, exp))
             ctx.case(key=("tie-x", xk.name, tuple(op[0] for op in ops)), nontrivial=(changed > 0 and raised > 0), modelled=True,
                      sample={"kind": xk.name, "ops": ops[:5], "n_ops": len(ops)} if si == 1 else None)
